@@ -22,13 +22,23 @@ struct Stats {
   capped: Option<String>,
 }
 
-fn explore(cfg: &Config, rep: &Reporter, budget_s: f64) -> Stats {
+fn explore(cfg: &Config, rep: &Reporter, budget_s: f64, stale_roots: bool) -> Stats {
   let alpha = alphabet(cfg);
   let mut seen: HashSet<String> = HashSet::new();
   // roots: the empty index, and an index with two segments whose writer handle is still alive
   // (so that compaction, upserts and deletes through a long-lived handle are within the depth)
   let a = |id: &str, v: &str| Op::Add(0, id.into(), v.into());
-  let roots: Vec<Vec<Op>> = vec![vec![], vec![Op::New(0), a("A", "1"), Op::Commit(0), a("B", "1"), Op::Commit(0)]];
+  let roots: Vec<Vec<Op>> = if stale_roots {
+    // two live handles, the second one stale: its view lacks a document the first one committed
+    // after it was opened / still holds a document the first one deleted since
+    vec![
+      vec![Op::New(0), Op::New(1), a("A", "1"), Op::Commit(0)],
+      vec![Op::New(0), a("A", "1"), Op::Commit(0), Op::New(1), Op::Del(0, "A".into()), Op::Commit(0)],
+    ]
+  } else {
+    vec![vec![], vec![Op::New(0), a("A", "1"), Op::Commit(0), a("B", "1"), Op::Commit(0)]]
+  };
+  let max_depth = if stale_roots { cfg.max_depth.min(3) } else { cfg.max_depth };
   let mut frontier: Vec<(Vec<Op>, Model, usize)> = Vec::new();
   for r in roots {
     let o = execute(cfg, &r);
@@ -49,7 +59,7 @@ fn explore(cfg: &Config, rep: &Reporter, budget_s: f64) -> Stats {
     capped: None,
   };
   let mut contents_seen: HashSet<String> = HashSet::new();
-  for depth in 1..=cfg.max_depth {
+  for depth in 1..=max_depth {
     if frontier.is_empty() {
       stats.fixpoint = true;
       break;
@@ -163,17 +173,18 @@ pub fn run(ctx: &Ctx) -> i32 {
   let mut per_cfg = Vec::new();
   let mut all_fix = true;
   let mut distinct = 0;
-  for cfg in &cfgs {
-    let st = explore(cfg, &rep, budget);
+  let runs: Vec<(&Config, bool)> = cfgs.iter().flat_map(|c| if c.handles >= 2 { vec![(c, false), (c, true)] } else { vec![(c, false)] }).collect();
+  for (cfg, stale_roots) in runs {
+    let st = explore(cfg, &rep, budget, stale_roots);
     println!(
-      "C04 config {}: states={} transitions={} depth_done={} fixpoint={} distinct_contents={} cap={:?}",
-      cfg.name(), st.states, st.transitions, st.depth_done, st.fixpoint, st.distinct_contents, st.capped
+      "C04 config {}{}: states={} transitions={} depth_done={} fixpoint={} distinct_contents={} cap={:?}",
+      cfg.name(), if stale_roots { " (stale-handle roots, depth <= 3)" } else { "" }, st.states, st.transitions, st.depth_done, st.fixpoint, st.distinct_contents, st.capped
     );
     states += st.states;
     transitions += st.transitions;
     distinct = distinct.max(st.distinct_contents);
     all_fix &= st.fixpoint;
-    per_cfg.push(json!({"config": cfg.to_json(), "states": st.states, "transitions": st.transitions,
+    per_cfg.push(json!({"config": cfg.to_json(), "stale_handle_roots": stale_roots, "states": st.states, "transitions": st.transitions,
       "depth_completed": st.depth_done, "fixpoint_reached": st.fixpoint,
       "distinct_committed_contents": st.distinct_contents, "cap_hit": st.capped}));
   }
@@ -185,7 +196,7 @@ pub fn run(ctx: &Ctx) -> i32 {
     "transitions" => transitions,
     "traces_validated_against_impl" => transitions,
     "distinct_nontrivial" => states,
-    "roots" => "empty index; [new0 add(A1) commit add(B1) commit] (two segments, live handle)",
+    "roots" => "empty index; [new0 add(A1) commit add(B1) commit] (two segments, live handle); with >= 2 handles also [new0 new1 add0(A1) commit0] and [new0 add0(A1) commit0 new1 del0(A) commit0] (a second live handle whose view is stale), explored to depth 3",
     "rule" => "BFS over all histories of {new,drop,add(A|B,v1|v2),del(A|B),commit,rollback} per handle + compact + reopen; a state is distinct by canonical key (segment structure, WAL records, per-handle queues and cache snapshots, committed map); every transition re-executes the real code from a fresh index and checks fresh-reader contents against the per-handle-queue reference model after every step",
     "exhaustive" => all_fix,
     "exhaustive_note" => "exhaustive within the per-config caps (depth, segments, queue length); fixpoint_reached per config says whether the frontier emptied below the depth cap",
